@@ -74,7 +74,15 @@ class C16(Prop):
     theorems = ["route_public", "route_dim", "route_private_never_enters", "route_stored_private_unreachable",
                 "routing_table_complete", "attrs_kept_take", "attrs_kept_reindex", "attrs_kept_transpose",
                 "attrs_kept_reduce", "attrs_kept_put", "attrs_kept_takeAxis", "attrs_kept_fillna",
-                "attrs_dropped_operation", "attrs_dropped_stack", "axis_attrs_kept_select", "axis_attrs_kept_take"]
+                "attrs_dropped_operation", "attrs_dropped_stack", "axis_attrs_kept_select", "axis_attrs_kept_take", "take_attrs", "take_axis_attrs", "put_attrs", "put_axis_attrs", "reindexAxis_attrs", "reindexAxis_axis_attrs",
+                "reindexLike_attrs", "reindexLike_axis_attrs", "sortAxis_attrs", "sortAxis_axis_attrs", "align_attrs", "align_axis_attrs",
+                "transpose_attrs", "transpose_axis_attrs", "swapaxes_attrs", "rollaxis_attrs", "newaxis_attrs", "newaxis_axis_attrs",
+                "squeeze_attrs", "squeeze_axis_attrs", "flatten_attrs", "flatten_axis_attrs", "unflattenAll_attrs", "reshape_attrs",
+                "reshape_axis_attrs", "broadcast_attrs", "broadcast_axis_attrs", "operation_attrs", "operation_axis_attrs", "stack_attrs",
+                "stack_axis_attrs", "concatenate_attrs", "concatenate_axis_attrs", "reduceAxis_attrs", "reduceAxis_axis_attrs", "argAxis_attrs",
+                "cumAxis_attrs", "diffAxis_attrs", "diffAxis_axis_attrs", "compressAxis_attrs", "takeAxis_attrs", "takeAxis_axis_attrs",
+                "dropna_attrs", "fillna_attrs", "setna_attrs", "interpAxis_attrs", "interpAxis_axis_attrs", "interpAxis_axis_attrs_counterexample",
+                "takeAxisPosDs_attrs", "takeAxisPosDs_axis_attrs", "sortAxisDs_axis_attrs", "reindexAxisDs_axis_attrs", "takeDs_attrs"]
     rule = ("routing: the complete table class {DimArray, Dataset, Axis} x name class {public, underscore, read-only member, "
             "settable member, method, dimension name / excluded name} x {stored in attrs, absent} x {get, set, del} is "
             "tabulated from the implementation on every run (126 rows) and proved by `decide`; propagation: every operation "
